@@ -4,7 +4,7 @@ use simcore::{Components, Obs, Scenario, Tier};
 
 use crate::cfg::{Cfg, ProbeKind, Step};
 use crate::world::{Report, StepOutcome, World, N_POOLS};
-use crate::{c02, c03, c04, c05, c06, c07, c08, c12, c13, c14, gen};
+use crate::{c02, c03, c04, c05, c06, c07, c08, c10, c12, c13, c14, gen};
 
 pub struct MarketHistory {
     pub focus: &'static str,
@@ -131,7 +131,10 @@ impl Scenario for MarketHistory {
                             c02::probe_fees_direct(&w, amount.0, discount.0, *pos, obs)
                         }
                         ProbeKind::SplitDistribution { t1, t2 } => c14::probe_split(&w, *t1, *t2, obs),
-                        ProbeKind::OpenClose { .. } | ProbeKind::PnlDirection { .. } => {}
+                        ProbeKind::OpenClose { is_long, collateral_long, collateral, size_usd } => {
+                            c10::probe_open_close(&w, *is_long, *collateral_long, collateral.0, size_usd.0, obs)
+                        }
+                        ProbeKind::PnlDirection { .. } => {}
                     }
                     let name = match kind {
                         ProbeKind::LpRoundTrip { .. } => "lp_round_trip",
